@@ -127,6 +127,10 @@ func main() {
 		set := gen.Generate(f.Rand(i), cfg)
 		names, texts := set.Files()
 		c := rescorr.Case{Names: names, Texts: texts}
+		if r := f.Rand(i + 7919); r.Intn(6) == 0 {
+			c.IgnoreCircular = r.Intn(2) == 0
+			c.IgnoreNotSupported = r.Intn(2) == 0
+		}
 		if i%4 == 0 {
 			// every fourth set goes to the model as raw text (Lean parser + AST builder + resolver)
 			c.Extra = map[string]string{"text": "1"}
